@@ -81,7 +81,8 @@ def dedup_unit_case(draw):
     base_vals = [0.0, -0.0, 1.0, 1.0 + 2 ** -52, 1.0000001, -1.0, 2.5, 1e-12]
     for _ in range(n):
         typ = draw(st.sampled_from(['PLANEX', 'PLANEZ', 'PLANE', 'SPHERE',
-                                    'CYLZ', 'TORUSZ', 'TORUSZ']))
+                                    'CYLZ', 'TORUSZ', 'TORUSZ', 'QUAD',
+                                    'QUAD', 'CONEZ']))
         ar = t4read.SURF_ARITY[typ]
         params = [draw(st.sampled_from(base_vals)) for _ in range(ar)]
         if typ in ('SPHERE',):
